@@ -32,7 +32,9 @@ RCOMP = os.path.join(TARGET, "debug", "rcomp")
 ASSUME_KNOWN = set(filter(None, os.environ.get("VERIF_C17_ASSUME_KNOWN", "").split(",")))
 if os.environ.get("VERIF_C17_LEAN"):      # testing aid: scratch copy of the Lean project
     common.LEAN = os.environ["VERIF_C17_LEAN"]
-    common.DRIVER = os.environ.get("VERIF_C17_DRIVER", os.path.join(common.LEAN, ".lake", "build", "bin", "rustemo_model"))
+    common.DRIVER = os.path.join(common.LEAN, ".lake", "build", "bin", "rustemo_model")
+if os.environ.get("VERIF_C17_DRIVER"):    # testing aid: a driver binary that already has the `cli` command word
+    common.DRIVER = os.environ["VERIF_C17_DRIVER"]
 
 KEY_CLASH = "C17-choice-name-suffix-clash"
 
